@@ -10,7 +10,11 @@ LEVEL_TEXT = "Lean theorems about the merge model: last value wins at every dept
 LEVEL_NOTE = 'Closed form on masters with one occurrence per name (further master occurrences: general theorems + correspondence). Variable-free sources in the closed forms. Instance equality is by rendering (%.10g for floats: D42 family).'
 TECHNIQUE = 'Lean 4 closed form of fetch (last-wins, split law, multiple-list rule incl. .multiple scopes) + differential correspondence + reference/metamorphic oracle'
 RULE = ("masters x source lists; each case also rewritten by splitting sources at top-level boundaries, re-spelling dotted paths "
-        "nested, and interleaving; non-trivial = some parameter receives two or more source values")
+        "nested, and interleaving; non-trivial = some parameter receives two or more source values; "
+        "master life cycles: the same master OBJECT is fetched, changed in place through the public API (scope.adopt_scope(plug-in): "
+        "new / re-declared parameters, also inside .multiple scopes; assignment of definition.words: another default) and fetched "
+        "again, the earlier result handed back as a source: the rules must hold against the master as it is at that moment "
+        "(reference reading on its present content, a freshly parsed master of the same text, split sources)")
 ASSUMPTIONS = ["value conversion (types) is taken from the implementation; C05 is about which source words win"]
 
 
@@ -171,7 +175,9 @@ def sets_deprecated(mo, instances):
     for rel, d in deprecated_children(mo):
         for inst in instances:
             for c in source_values([_as_root(inst)], rel):
-                if [w.value for w in c.words] != [w.value for w in d.words]:
+                # (the text as written: the quoted word "None" / 'Auto' is another text than the atom None / Auto, and
+                # extracts to another value)
+                if [(w.value, w.quote_token) for w in c.words] != [(w.value, w.quote_token) for w in d.words]:
                     return True
     return False
 
@@ -194,8 +200,9 @@ def scope_list_rule(ms, mo, p, ss):
     return out, instances
 
 
-def deprecated_in_multiple_scope(m, ss, base_extract):
-    """None, or (description, finding ids): the list rule on every .multiple scope that holds a .deprecated parameter"""
+def deprecated_in_multiple_scope(m, ss, base_extract, every=False):
+    """None, or (description, finding ids): the list rule on every .multiple scope that holds a .deprecated parameter
+    (every=True: on every .multiple scope without a .multiple object above or below it)"""
     def walk(ms, prefix, ex):
         seen = set()
         for mo in ms.objects:
@@ -210,7 +217,7 @@ def deprecated_in_multiple_scope(m, ss, base_extract):
                     if r:
                         return r
                 continue
-            if has_multiple(mo) or not deprecated_children(mo):
+            if has_multiple(mo) or not (every or deprecated_children(mo)):
                 continue
             want, instances = scope_list_rule(ms, mo, p, ss)
             got = [value_key(x) for x in getattr(ex, mo.name, [])]
@@ -228,6 +235,193 @@ def lookup(d, path):
             return ("missing",)
         cur = cur[c]
     return cur
+
+
+def find_definition(m, comps):
+    """the first active occurrence of the master definition with these path components (the declaration)"""
+    cur = m
+    for j, c in enumerate(comps):
+        last = j == len(comps) - 1
+        nxt = [o for o in cur.objects if not o.is_disabled and o.name == c and bool(o.is_definition) == last]
+        if not nxt:
+            return None
+        cur = nxt[0]
+    return cur
+
+
+def first_difference(a, b, path=""):
+    if isinstance(a, dict) and isinstance(b, dict) and set(a) == set(b):
+        for k in a:
+            if a[k] != b[k]:
+                return first_difference(a[k], b[k], path + "." + k if path else k)
+    return "%s: %r versus %r" % (path or "(root)", a, b)
+
+
+def without_word_lines(v):
+    """an extracted value in PVal wire form without the source line of the words of words-typed values"""
+    if isinstance(v, list) and len(v) == 2 and v[0] == "w" and isinstance(v[1], list):
+        return ["w", [w[:2] for w in v[1]]]
+    if isinstance(v, list):
+        return [without_word_lines(x) for x in v]
+    return v
+
+
+def life_apply(m, st):
+    """apply one in-place change step to the master object m"""
+    if "adopt_scope" in st:
+        m.adopt_scope(freephil.parse(input_string=st["adopt_scope"]))
+    else:
+        path, text = st["assign_words"]
+        find_definition(m, path.split(".")).words = freephil.parse(input_string="v = " + text).objects[0].words
+
+
+def life_verdict(m, mt_now, srcs, rule_part):
+    """The statement on the master object m AS IT IS NOW (its text: mt_now) and the sources srcs: None, or what fails.
+    The rules speak of the master's defaults / templates and of the sources only, so (1) a freshly parsed master of the
+    same text must give the same values, (2) the reference reading of the rules is evaluated against m's present
+    content (rule_part: masters without nested multiples), (3) splitting the sources changes nothing."""
+    ss = [freephil.parse(input_string=t) for t in srcs]
+    ex = m.fetch(sources=ss).extract()
+    base = _fetch.dump(ex)
+    try:
+        fresh = extract_dump(freephil.parse(input_string=mt_now), srcs)
+    except BaseException as e:
+        if isinstance(e, (KeyboardInterrupt, MemoryError)):
+            raise
+        return "the master changed in place merges these sources, a freshly parsed master of the same text raises %s" % type(e).__name__
+    if fresh != base:
+        return ("the master object changed in place and a freshly parsed master of the same text merge the same sources "
+                "differently (in place versus fresh): " + first_difference(base, fresh))
+    if rule_part:
+        for p, want in reference(m, ss).items():
+            got = lookup(base, p)
+            if got != want:
+                return "%s: merged value %r, the rules (read on the master as it is now) give %r" % (p, got, want)
+        r = deprecated_in_multiple_scope(m, ss, ex, every=True)
+        if r:
+            return r[0] + " (master as it is now)"
+    items = [it for s in srcs for it in top_items(s)]
+    if extract_dump(m, items) != base:
+        return "result changes when the sources are rewritten: one source per top-level item"
+    return None
+
+
+def life_play(case):
+    """run a life-cycle case on the implementation; returns the verdict of its last fetch step"""
+    m = freephil.parse(input_string=case["master"])
+    for st in case["steps"][:-1]:
+        if "fetch" in st:
+            try:
+                m.fetch(sources=[freephil.parse(input_string=s) for s in st["fetch"]]).extract()
+            except BaseException as e:
+                if isinstance(e, (KeyboardInterrupt, MemoryError)):
+                    raise
+        else:
+            life_apply(m, st)
+    return life_verdict(m, case["master_text_now"], case["steps"][-1]["fetch"], case["rule_part"])
+
+
+def life_cycles(ctx, n):
+    """Master LIFE CYCLES: ONE master object is fetched, then changed in place through the public API -- extended /
+    re-declared by scope.adopt_scope(plug-in) (new parameters inside scopes, .multiple ones included: their templates
+    change; re-declared parameters: other default / type) or given another default by assigning definition.words --
+    and fetched again (one or two rounds; the earlier result printed back as the first source in most rounds, as an
+    application hands its working parameters back).  The statement quantifies over every well-formed master, however it
+    came about: each fetch must obey the rules against the master as it is at that moment (life_verdict).  The model is
+    history-free: each fetch is also compared (extracted values) with the model's answer on the TEXT of the changed master."""
+    import mgen
+    from props.C04 import structure
+    rng = ctx.rng
+    cases, reqs, impls = [], [], []
+    for i in range(n):
+        if ctx.time_left() < 30:
+            ctx.notes.append("life-cycle stream stopped early on time budget")
+            break
+        g = mgen.MasterGen(rng, depth=rng.choice([1, 1, 2, 2, 3]), nested_multiples=(i % 4 == 3), reopen=False)
+        tree = g.tree()
+        mt = mt_now = mgen.render_master(tree)
+        m = freephil.parse(input_string=mt)
+        steps = []
+        prev = None
+        for rnd in range(rng.choice([1, 1, 2]) + 1):
+            if rnd > 0:
+                if rng.random() < 0.5:
+                    tree, ext, tags = g.extension(tree)
+                    st = {"adopt_scope": ext} if ext else None
+                else:
+                    tree, comps, text, tags = g.default_change(tree)
+                    st = {"assign_words": [".".join(comps), text]} if comps and find_definition(m, comps) is not None else None
+                if st is None:
+                    ctx.count("life_no_change_drawn")
+                    break
+                life_apply(m, st)
+                steps.append(st)
+                mt_now = mgen.render_master(tree)
+                if structure(m) != structure(freephil.parse(input_string=mt_now)):
+                    # the changed master is not the master the generator meant to build: no verdict
+                    ctx.count("life_change_not_as_written")
+                    break
+                for t in set(tags):
+                    ctx.count("life_" + t)
+            srcs = [mgen.SourceGen(rng).text(tree) for _ in range(rng.choice([0, 1, 1, 2]))]
+            if prev is not None and rng.random() < 0.7:
+                srcs = [prev] + srcs
+            steps.append({"fetch": srcs})
+            rule_part = not _fetch.has_nested_multiple(tree)
+            case = {"master": mt, "steps": [dict(s_) for s_ in steps], "master_text_now": mt_now, "rule_part": rule_part}
+            ss = [freephil.parse(input_string=s_) for s_ in srcs]
+            ctx.case((mt, repr(steps)), nontrivial=rnd > 0)
+            ctx.count("life_fetch_round_%d" % rnd)
+            ia = _fetch.fetch_impl(m, ss)
+            prev = None
+            f = None
+            if ia[0] == "ok" and ia[1][2][0] == "ok":
+                if rnd > 0:
+                    ctx.count("life_verdicts")
+                    try:
+                        f = life_verdict(m, mt_now, srcs, rule_part)
+                    except BaseException as e:
+                        if isinstance(e, (KeyboardInterrupt, MemoryError)):
+                            raise
+                        f = "evaluating the rules on the master changed in place raised %s: %s" % (type(e).__name__, str(e)[:120])
+                try:
+                    prev = m.fetch(sources=ss).as_str()
+                    freephil.parse(input_string=prev)
+                except BaseException:
+                    prev = None
+            else:
+                ctx.count("life_fetch_or_extract_refused")
+            if f:
+                ctx.fail(case, f, finding=None)
+            cases.append(case)
+            reqs.append(_fetch.fetch_req(mt_now, srcs))
+            impls.append(ia)
+            if i % 60 == 0 and rnd > 0:
+                ctx.sample(case)
+    if reqs and ctx.mode != "impl-only":
+        from common import run_model, same_outcome
+        for case, a, i in zip(cases, run_model(reqs), impls):
+            changed = any("fetch" not in st for st in case["steps"])
+            if a and i and a[0] == "ok" and i[0] == "ok":
+                # the extracted values (words-typed values carry the line of each word: objects adopted from a plug-in /
+                # assigned words keep their own line numbers, the model reads the changed master as one text)
+                ea, ei = without_word_lines(a[1][2]), without_word_lines(i[1][2])
+                if changed and ea[0] == ei[0] == "err" and ea[1] == ei[1] == "runtime":
+                    ea, ei = ea[:3], ei[:3]     # extract refuses a master default: the line cited lies inside the master
+                ok = same_outcome(["ok", ea], ["ok", ei])
+                if ok is None:
+                    ctx.count("life_model_declines:" + str(a[1][2][1] if a[1][2][0] == "unsupported" else a[0])[:60])
+            elif changed and a and i and a[0] == i[0] == "err" and a[1] == i[1] == "runtime":
+                # objects adopted from a plug-in / assigned words keep their own line numbers, the model reads the changed
+                # master as one text: positions inside the master are not comparable
+                ok = a[2] == i[2]
+            else:
+                ok = same_outcome(a, i)
+            ctx.traces += 1
+            if ok is None:
+                ctx.unsupported += 1
+            elif not ok:
+                ctx.disagree("fetch-after-in-place-change", case, a, i)
 
 
 def run(ctx):
@@ -326,6 +520,7 @@ def run(ctx):
         impls.append(ia)
     if reqs and ctx.mode != "impl-only":
         ctx.corr("fetch", cases, reqs, impls)
+    life_cycles(ctx, ctx.scale(400, 6000, 800))
 
 
 def finding_still_fails(f):
@@ -343,4 +538,9 @@ def finding_still_fails(f):
 
 def replay(payload):
     print(payload["failure"])
+    c = payload["failure"].get("case") if isinstance(payload["failure"], dict) else None
+    if isinstance(c, dict) and "steps" in c:
+        r = life_play(c)
+        print(r)
+        return r is None
     return False
